@@ -22,14 +22,14 @@ LEVEL = "exploration"
 NEEDS_SIMMPI = True
 RULE = ("seeded set-ups: grids [nr 5-8, ntheta 5-8, nz 7-9, nv 6-9] on process grids (1,1),(2,1),(1,2),(2,2),(3,1),(1,3),"
         "(3,2),(2,3); random real f and random complex phi (plus the field equal to one); l2/l1/nParticles/KineticEnergy in "
-        "all three layouts of f and in the distributed (v_parallel_2d, mode_solve) and replicated (v_parallel_1d, poloidal) "
+        "all three layouts of f, in ALL 24 orderings of a 4-D grid with non-uniform r and v nodes, and in the distributed (v_parallel_2d, mode_solve) and replicated (v_parallel_1d, poloidal) "
         "layouts of phi; getMin/getMax for the whole grid and for 1 or 2 fixed indices at every drawing rank; "
         "DiagnosticCollector.collect at several times with save intervals 1-4 followed by reduce() under seeded arrival "
         "orders.  A class is (quantity, layout, which of r|z|v split, field kind) / (min|max, fixed axes, owner pattern) / "
         "(collector, save interval).")
 ASSUMPTIONS = ["simulated MPI; reductions combined in arrival order (self-tested)", "replicated layouts: sum over one replica set (ranks of the layout's own communicators)",
                "tolerance 500*eps*sum|terms|"]
-REQUIRED_EVENTS = {"norms_compared": 1, "minmax_compared": 1, "collector_rows_compared": 1, "replicated_layout_checks": 1, "unit_field_checks": 1}
+REQUIRED_EVENTS = {"norms_compared": 1, "minmax_compared": 1, "collector_rows_compared": 1, "replicated_layout_checks": 1, "unit_field_checks": 1, "nonstandard_layouts": 1}
 C = 500.0
 CASE_TIMEOUT = {"quick": 600, "thorough": 1500}
 
@@ -41,6 +41,10 @@ def gen_cases(tier, seed):
     for k in range(24 if tier == "quick" else 640):
         cases.append({"kind": "diag", "npts": [rng.randint(5, 8), rng.randint(5, 8), rng.randint(7, 9), rng.randint(6, 9)], "nprocs": list(grids[k % len(grids)]),
                       "saveStep": rng.randint(1, 4), "dt": rng.choice([1, 2, 3]), "sched": rng.randrange(1 << 30), "seed": rng.randrange(1 << 30), "cost": 100})
+    # "in every layout": all 24 orderings of a 4-D grid (not only the three shipped ones)
+    for k in range(4 if tier == "quick" else 48):
+        cases.append({"kind": "anylayout", "npts": [rng.randint(4, 7) for _ in range(4)], "nprocs": list([(1, 1), (2, 1), (2, 2), (1, 3), (3, 2), (2, 3)][k % 6]),
+                      "seed": rng.randrange(1 << 30), "cost": 150})
     return cases
 
 
@@ -66,6 +70,57 @@ def serial_values(F, PHI, eta):
                     "KE": float(0.5 * np.sum(np.abs(F) * (v ** 2)[None, None, None, :] * W4)), "l2phi": float(np.sum(np.abs(PHI) ** 2 * W3))}}
 
 
+def _anylayout(case):
+    import itertools
+    from mpi4py import MPI
+    from pygyro.model.layout import getLayoutHandler
+    from pygyro.model.grid import Grid
+    from pygyro.diagnostics import norms, energy
+    from vlib import layout_oracle as lo
+    npts, nprocs = case["npts"], case["nprocs"]
+    if max(nprocs) > min(npts):
+        return result(SKIP, what="process grid larger than the smallest extent")
+    P = nprocs[0] * nprocs[1]
+    rs = np.random.RandomState(case["seed"] % (1 << 31))
+    from math import pi as _pi
+    eta = [np.sort(rs.uniform(0.5, 5.0, npts[0])), np.linspace(0, 2 * _pi, npts[1], endpoint=False), np.linspace(0, 7.0, npts[2], endpoint=False), np.sort(rs.uniform(-4, 4, npts[3]))]
+    F = rs.standard_normal(npts)
+    perms = [list(p) for p in itertools.permutations(range(4))]
+    layouts = {"L" + "".join(map(str, p)): p for p in perms}
+
+    def prog(rank):
+        comm = MPI.COMM_WORLD
+        h = getLayoutHandler(comm, dict(layouts), list(nprocs), eta)
+        out = {}
+        for name in layouts:
+            g = Grid(eta, [None] * 4, h, name, comm)
+            L = h.getLayout(name)
+            g.getAllData()[:] = lo.expected_block(F, L)
+            out[name] = {"l2f": norms.l2(eta, L).l2NormSquared(g), "l1": norms.l1(eta, L).l1Norm(g), "N": norms.nParticles(eta, L).getN(g), "KE": energy.KineticEnergy(eta, L).getKE(g)}
+        return out
+
+    w = MPI.run_world(P, prog, timeout=500)
+    ev = dict(w.events)
+    ev.update({"norms_compared": 0, "minmax_compared": 0, "collector_rows_compared": 0, "replicated_layout_checks": 0, "unit_field_checks": 0, "nonstandard_layouts": 0})
+    err = w.first_error()
+    wit = {"case": case}
+    if err is not None:
+        wit["traceback"] = (w.tracebacks[err[0]] or "")[-2500:]
+        return result(VIOL, cls=["anylayout/exception"], events=ev, key="C17:anylayout-exception:%s" % type(err[1]).__name__, what="rank %d raised %r" % (err[0], err[1]), witness=wit)
+    ser = serial_values(F, np.zeros(npts[:3], dtype=complex), eta)
+    cls = set()
+    for name, p in layouts.items():
+        for q in ("l2f", "l1", "N", "KE"):
+            tot = sum(r[name][q] for r in w.results)
+            ev["norms_compared"] += 1
+            ev["nonstandard_layouts"] += 1
+            cls.add("anylayout/%s/%s" % (q, "r-before-v" if p.index(0) < p.index(3) else "v-before-r"))
+            if not abs(tot - ser[q]) <= C * rm.EPS * ser["abs"][q]:
+                return result(VIOL, cls=sorted(cls), events=ev, key="C17:%s/nonstandard-layout" % q,
+                              what="sum over ranks of %s in layout ordering %r (grid %r) is %r, serial quadrature gives %r" % (q, p, nprocs, tot, ser[q]), witness=wit)
+    return result(HELD, cls=sorted(cls), events=ev, n_eval=ev["norms_compared"])
+
+
 def run_case(case):
     import pygyro.splines as spl
     from mpi4py import MPI
@@ -73,6 +128,8 @@ def run_case(case):
     from pygyro.diagnostics import norms, energy
     from pygyro.diagnostics.diagnostic_collector import DiagnosticCollector
     paths.assert_repo(norms)
+    if case["kind"] == "anylayout":
+        return _anylayout(case)
     npts, nprocs = case["npts"], case["nprocs"]
     if not simrun.admissible(npts, nprocs) or nprocs[0] > npts[1]:
         return result(SKIP, what="process grid not admissible")
